@@ -389,6 +389,40 @@ static std::string handle(const std::vector<std::string>& f0)
         set_env(d, ".");
         return r;
     }
+    if (op == "PU")
+    {
+        // only the vector<user_input> entry point: tokens are std::strings and may hold any byte, NUL included
+        Decl d = parse_decl(f.at(1));
+        no::parser p("prog");
+        try
+        {
+            declare(p, d);
+        }
+        catch (no::parser_error&)
+        {
+            return "decl-dev";
+        }
+        set_env(d, f.at(2));
+        std::string r;
+        try
+        {
+            std::vector<no::user_input> ui;
+            for (auto& t : nv::unhex_list(f.at(3)))
+                ui.emplace_back(t);
+            auto a = p.parse(ui);
+            r = result_str(d, a);
+        }
+        catch (no::parsing_error&)
+        {
+            r = "user";
+        }
+        catch (no::parser_error&)
+        {
+            r = "dev";
+        }
+        set_env(d, ".");
+        return r;
+    }
     if (op == "H" || op == "HM")
     {
         // HM: between two parses the parser object is moved (alternately move-constructed and move-assigned), the
